@@ -201,4 +201,151 @@ theorem plabel_render_inj (n : Nat) (a b : PLabel) (ha : a ∈ PLabel.all n) (hb
 theorem clabel_render_nodup : (CLabel.all.map CLabel.render).Nodup := by decide
 theorem glabel_render_nodup : (GLabel.all.map GLabel.render).Nodup := by decide
 
+/-! ## rendered row labels of the compiled table -/
+
+/-- a parameter name that cannot be confused with another row label -/
+def NameOK (n : List Char) : Prop :=
+  (∀ s : GLabel, n ≠ s.render.toList) ∧ ¬ " (std)".toList <:+ n ∧ ¬ " (ttest)".toList <:+ n
+
+/-- the labels one call of `compile_estimation_results` can produce -/
+def RLabel.inTable (o : CompileOpts) : RLabel → Prop
+  | .stat _ => True
+  | .fmt n s t => o.formatted = true ∧ s = o.includeStd ∧ t = o.includeT ∧ NameOK n
+  | .val n => o.formatted = false ∧ NameOK n
+  | .std n => o.formatted = false ∧ NameOK n
+  | .tt n => o.formatted = false ∧ NameOK n
+
+theorem stat_last (s : GLabel) : s.render.toList.getLast? ≠ some ')' := by
+  cases s <;> decide
+
+theorem last_std (n : List Char) : (n ++ " (std)".toList).getLast? = some ')' := by
+  rw [List.getLast?_append]
+  have : " (std)".toList.getLast? = some ')' := by decide
+  rw [this]; rfl
+theorem last_tt (n : List Char) : (n ++ " (ttest)".toList).getLast? = some ')' := by
+  rw [List.getLast?_append]
+  have : " (ttest)".toList.getLast? = some ')' := by decide
+  rw [this]; rfl
+theorem last_ttest (n : List Char) : (n ++ " (t-test)".toList).getLast? = some ')' := by
+  rw [List.getLast?_append]
+  have : " (t-test)".toList.getLast? = some ')' := by decide
+  rw [this]; rfl
+
+theorem std_ne_tt (n m : List Char) : n ++ " (std)".toList ≠ m ++ " (ttest)".toList := by
+  intro h
+  have := congrArg List.reverse h
+  simp [List.reverse_append] at this
+
+theorem fmt_suffix_last (s t : Bool) (n : List Char) (h : s = true ∨ t = true) :
+    (n ++ (if s then " (std)".toList else []) ++ (if t then " (t-test)".toList else [])).getLast? = some ')' := by
+  cases s <;> cases t
+  · simp at h
+  · simp
+  · simp
+  · simp only [↓reduceIte]; exact last_ttest _
+
+theorem glabel_render_inj (s s' : GLabel) (h : s.render.toList = s'.render.toList) : s = s' := by
+  have h' : s.render = s'.render := String.toList_inj.mp h
+  cases s <;> cases s' <;> first | rfl | (exfalso; revert h'; decide)
+
+theorem stat_ne_fmt (g : GLabel) (n : List Char) (s t : Bool) (hn : NameOK n) :
+    g.render.toList ≠ (n ++ (if s then " (std)".toList else [])) ++ (if t then " (t-test)".toList else []) := by
+  by_cases hst : s = true ∨ t = true
+  · intro h
+    have := fmt_suffix_last s t n hst
+    rw [← h] at this
+    exact stat_last g this
+  · have hs : s = false := by cases s <;> simp at hst ⊢
+    have ht : t = false := by cases t <;> simp at hst ⊢
+    subst hs; subst ht
+    intro h
+    simp only [Bool.false_eq_true, ↓reduceIte, List.append_nil] at h
+    exact hn.1 g h.symm
+
+theorem stat_ne_std (g : GLabel) (n : List Char) : g.render.toList ≠ n ++ " (std)".toList := by
+  intro h
+  have := last_std n
+  rw [← h] at this
+  exact stat_last g this
+
+theorem stat_ne_tt (g : GLabel) (n : List Char) : g.render.toList ≠ n ++ " (ttest)".toList := by
+  intro h
+  have := last_tt n
+  rw [← h] at this
+  exact stat_last g this
+
+theorem name_ne_std (n m : List Char) (hn : NameOK n) : n ≠ m ++ " (std)".toList := by
+  intro h
+  exact hn.2.1 ⟨m, h.symm⟩
+
+theorem name_ne_tt (n m : List Char) (hn : NameOK n) : n ≠ m ++ " (ttest)".toList := by
+  intro h
+  exact hn.2.2 ⟨m, h.symm⟩
+
+theorem rlabel_render_inj (o : CompileOpts) (a b : RLabel) (ha : a.inTable o) (hb : b.inTable o)
+    (h : a.render = b.render) : a = b := by
+  cases a <;> cases b <;> simp only [RLabel.inTable] at ha hb <;> simp only [RLabel.render] at h
+  case stat.stat => rw [glabel_render_inj _ _ h]
+  case stat.fmt => exact absurd h (stat_ne_fmt _ _ _ _ hb.2.2.2)
+  case stat.val => exact absurd h.symm (hb.2.1 _)
+  case stat.std => exact absurd h (stat_ne_std _ _)
+  case stat.tt => exact absurd h (stat_ne_tt _ _)
+  case fmt.stat => exact absurd h.symm (stat_ne_fmt _ _ _ _ ha.2.2.2)
+  case fmt.fmt =>
+    obtain ⟨_, rfl, rfl, _⟩ := ha
+    obtain ⟨_, rfl, rfl, _⟩ := hb
+    have := List.append_cancel_right (List.append_cancel_right h)
+    rw [this]
+  case fmt.val => rw [ha.1] at hb; exact absurd hb.1 (by decide)
+  case fmt.std => rw [ha.1] at hb; exact absurd hb.1 (by decide)
+  case fmt.tt => rw [ha.1] at hb; exact absurd hb.1 (by decide)
+  case val.stat => exact absurd h (ha.2.1 _)
+  case val.fmt => rw [hb.1] at ha; exact absurd ha.1 (by decide)
+  case val.val => rw [h]
+  case val.std => exact absurd h (name_ne_std _ _ ha.2)
+  case val.tt => exact absurd h (name_ne_tt _ _ ha.2)
+  case std.stat => exact absurd h.symm (stat_ne_std _ _)
+  case std.fmt => rw [hb.1] at ha; exact absurd ha.1 (by decide)
+  case std.val => exact absurd h.symm (name_ne_std _ _ hb.2)
+  case std.std => rw [List.append_cancel_right h]
+  case std.tt => exact absurd h (std_ne_tt _ _)
+  case tt.stat => exact absurd h.symm (stat_ne_tt _ _)
+  case tt.fmt => rw [hb.1] at ha; exact absurd ha.1 (by decide)
+  case tt.val => exact absurd h.symm (name_ne_tt _ _ hb.2)
+  case tt.std => exact absurd h.symm (std_ne_tt _ _)
+  case tt.tt => rw [List.append_cancel_right h]
+
+/-- every label a call produces is one of the table's labels (names taken from the model) -/
+theorem compile_column_inTable (o : CompileOpts) (raw : Raw α) (r : Rep α)
+    (hok : ∀ k, k < r.K → NameOK (r.names.getD k []))
+    (l : RLabel) (c : Cell α) (h : (l, c) ∈ compileColumn o raw r) : l.inTable o := by
+  unfold compileColumn at h
+  rw [List.mem_append] at h
+  rcases h with h | h
+  · simp only [List.mem_map, Prod.mk.injEq] at h
+    obtain ⟨s, _, rfl, _⟩ := h
+    trivial
+  · cases hp : o.includeParams
+    · simp [hp] at h
+    · simp only [hp, ↓reduceIte] at h
+      cases hf : o.formatted
+      · simp only [hf, Bool.false_eq_true, ↓reduceIte, List.mem_flatMap, List.mem_range,
+          List.mem_append, List.mem_cons, List.not_mem_nil, or_false, Prod.mk.injEq] at h
+        obtain ⟨k, hk, h⟩ := h
+        rcases h with (⟨rfl, _⟩ | h) | h
+        · exact ⟨hf, hok k hk⟩
+        · cases hs : o.includeStd
+          · simp [hs] at h
+          · simp only [hs, ↓reduceIte, List.mem_cons, List.not_mem_nil, or_false, Prod.mk.injEq] at h
+            obtain ⟨rfl, _⟩ := h
+            exact ⟨hf, hok k hk⟩
+        · cases ht : o.includeT
+          · simp [ht] at h
+          · simp only [ht, ↓reduceIte, List.mem_cons, List.not_mem_nil, or_false, Prod.mk.injEq] at h
+            obtain ⟨rfl, _⟩ := h
+            exact ⟨hf, hok k hk⟩
+      · simp only [hf, ↓reduceIte, List.mem_map, List.mem_range, Prod.mk.injEq] at h
+        obtain ⟨k, hk, rfl, _⟩ := h
+        exact ⟨hf, rfl, rfl, hok k hk⟩
+
 end Stats
